@@ -139,8 +139,12 @@ func (w *c17World) newDecision(kind string) *decision {
 	w.idNo++
 	n := w.idNo
 	d := &decision{kind: kind}
-	idh := sha256.Sum256([]byte(fmt.Sprintf("decision-%s-%d", kind, n)))
-	d.id = idh[:]
+	// ids of different lengths where one competing id is a prefix of the other ("setConfig#1", "setConfig#1x"):
+	// ids are opaque byte strings and must be matched exactly
+	d.id = []byte(fmt.Sprintf("%s#%d", kind, (n+1)/2))
+	if n%2 == 0 {
+		d.id = append(d.id, 'x')
+	}
 	switch kind {
 	case "setConfig":
 		d.cfgKey, d.cfgVal = []byte(fmt.Sprintf("key%d", n%2)), []byte(fmt.Sprintf("val%d", n))
@@ -395,7 +399,7 @@ func (w *c17World) signerOf(pub []byte) neotest.SingleSigner {
 func TestC17Stateful(t *testing.T) {
 	theT = t
 	col := ev.New("C17", "stateful",
-		"rapid state machine on the main-chain NeoFS contract deployed without Notary with n=1..7 stored Alphabet keys: decisions {setConfig, alphabetUpdate (replacement or addition of one key, removal where the threshold stays: the proposed list may have another size than the stored one), cheque, innerRingCandidateRemove} with two competing ids per kind whose arguments are a function of the id; actors: current members, replaced ex-members, strangers, the candidate itself, sometimes two signers; blocks of 1..3 invocations separated by gaps {1,19,20,21,25} (several votes per block = gap 0); ballot model: distinct voters per id, expiry when the gap to the last counted vote exceeds 20 blocks, effect exactly in the invocation reaching floor(2n/3)+1; config, alphabetList, innerRingCandidates, payee GAS and the Cheque/AlphabetUpdate/SetConfig notifications compared after every block; non-trivial = a decision completed with n>=3 after a gap >= 19 or with a competing id / stranger / repeated vote in the history",
+		"rapid state machine on the main-chain NeoFS contract deployed without Notary with n=1..7 stored Alphabet keys: decisions {setConfig, alphabetUpdate (replacement or addition of one key, removal where the threshold stays: the proposed list may have another size than the stored one), cheque, innerRingCandidateRemove} with two competing ids per kind (of different lengths, one a prefix of the other) whose arguments are a function of the id; actors: current members, replaced ex-members, strangers, the candidate itself, sometimes two signers; blocks of 1..3 invocations separated by gaps {1,19,20,21,25} (several votes per block = gap 0); ballot model: distinct voters per id, expiry when the gap to the last counted vote exceeds 20 blocks, effect exactly in the invocation reaching floor(2n/3)+1; config, alphabetList, innerRingCandidates, payee GAS and the Cheque/AlphabetUpdate/SetConfig notifications compared after every block; non-trivial = a decision completed with n>=3 after a gap >= 19 or with a competing id / stranger / repeated vote in the history",
 		"the arguments of a decision are a function of its id (the Inner Ring derives ids from events)", "a repeated vote that falls inside the window while the last counted vote is older than 20 blocks is set-valued (resynchronised from the stored ballot)", "the contract holds enough GAS for every cheque")
 	runRapid(t, col, func(rt *rapid.T, h *ev.History) {
 		k := rapid.SampledFrom([]int{1, 2, 3, 4, 4, 5, 7}).Draw(rt, "n")
@@ -832,7 +836,7 @@ func TestC17Exhaustive(t *testing.T) {
 	theT = t
 	maxLen := envInt("VERIF_C17_MAXLEN", 4)
 	col := ev.New("C17", "exhaustive",
-		fmt.Sprintf("complete enumeration for n=1..4 stored keys of all sequences of length 1..%d over (actor in members+one stranger) x (two competing setConfig ids), one invocation per block, plus for n=2..4 all gap vectors from {1,20,21}^(threshold-1) between the threshold-many distinct votes with and without an interleaved repeated vote; the ballot model must predict every outcome; non-trivial = sequence containing a completion", maxLen),
+		fmt.Sprintf("complete enumeration for n=1..4 stored keys of all sequences of length 1..%d over (actor in members+one stranger) x (two competing setConfig ids, one a prefix of the other), one invocation per block, plus for n=2..4 all gap vectors from {1,20,21}^(threshold-1) between the threshold-many distinct votes with and without an interleaved repeated vote; the ballot model must predict every outcome; non-trivial = sequence containing a completion", maxLen),
 		"the arguments of a decision are a function of its id")
 	defer func() { col.Flush(true) }()
 	nshards, shard := envInt("VERIF_NSHARDS", 1), envInt("VERIF_SHARD_INDEX", 0)
